@@ -124,6 +124,23 @@ pub fn run_crash_case(
             ));
         }
     }
+    // (2b) "as before" includes the default selector: the latest complete version is still found
+    // (a band with a BANDTAIL file, even an empty leftover, is complete by the format's definition
+    // and clause 6 demands that it restores exactly: then it is the latest complete one)
+    let latest_expected = if snap.has_tail_file(scn.next_band()) {
+        Some(scn.next_band())
+    } else {
+        scn.complete.iter().max().cloned()
+    };
+    if let Some(newest) = latest_expected.as_ref() {
+        let (o, got) = run::do_resolve(&dir, Sel::LatestClosed);
+        if got != Some(*newest) {
+            res.c03.push(Violation::new(
+                format!("C03:latest-complete-version-not-found:{site}"),
+                format!("{at}: the latest complete version is b{newest:04} but resolving it gives {got:?} ({})", o.describe()),
+            ));
+        }
+    }
     // (3) no index entry anywhere names a missing or short block
     let problems = common::ref_scan(&snap, &snap.band_ids());
     if !problems.is_empty() {
